@@ -780,8 +780,15 @@ func (p *pp) printArg(arg interface{}, verb rune) {
 		// Handle extractable values with special methods
 		// since printValue does not handle them at depth 0.
 		if f.IsValid() {
-			t := f.Type()
-			if p.handleSpecialValues(f, t, verb, 0) {
+			// Look through interface values, so that the checks below
+			// see the dynamic type (wrappers, registered safe types),
+			// like printValue does at depth > 0.
+			v := f
+			if v.Kind() == reflect.Interface && !v.IsNil() {
+				v = v.Elem()
+			}
+			t := v.Type()
+			if p.handleSpecialValues(v, t, verb, 0) {
 				return
 			}
 
